@@ -137,6 +137,12 @@ def allowed_exc(world, contract, exc):
 def check_exits(ex, contract, finfo, outs):
     n_normal = 0
     for o in outs:
+        # in postconditions a parameter name denotes the argument value (its value at entry), even if the body reassigns it
+        if o.st is not None and ex.entry is not None:
+            o.st.env = dict(o.st.env)
+            for pn in finfo.params:
+                if pn in ex.entry.env:
+                    o.st.env[pn] = ex.entry.env[pn]
         if o.kind in ('next', 'return'):
             n_normal += 1
             val = o.val if o.kind == 'return' and o.val is not None else Val(NONE, 'none')
@@ -435,8 +441,11 @@ def ground_terms(fs, sort, limit=40):
             kind = f.decl().kind()
             ch = f.children()
             stack.extend(ch)
-            if kind in (z3.Z3_OP_SEQ_NTH, z3.Z3_OP_SEQ_AT) or (kind == z3.Z3_OP_UNINTERPRETED and f.decl().name() in ('seq.nth_i', 'seq.nth_u')):
+            if kind in (z3.Z3_OP_SEQ_NTH, z3.Z3_OP_SEQ_AT, z3.Z3_OP_SEQ_EXTRACT) or (kind == z3.Z3_OP_UNINTERPRETED and f.decl().name() in ('seq.nth_i', 'seq.nth_u')):
                 cands = ch[1:2]
+                if is_int and z3.is_app(ch[0]) and ch[0].decl().kind() == z3.Z3_OP_SEQ_EXTRACT and not has_var(f):
+                    # element k of the slice x[a:a+l] is element a+k of x: offer a+k as an instantiation term
+                    cands = cands + [ch[0].arg(1) + ch[1]]
                 for c in cands:
                     if c.sort().eq(sort) and not z3.is_int_value(c) and not has_var(c):
                         _NTH_IDX.setdefault(c.get_id(), c)
